@@ -2351,3 +2351,233 @@ SUBCHECKS = [
     SubCheck("resistive_seq", oracle_sequence(RES), gen=res_cases,
              quick=(2, 40), thorough=(8, 600)),
 ]
+
+
+# ===========================================================================
+# Constructors (and a few first queries) must not modify caller-owned arrays
+# that ALREADY have the library's internal dtype / memory layout: a conversion
+# that "always copies" for float64 input may alias float32 / int8 / int16 /
+# C-contiguous input (added after an independently seeded change was missed).
+
+CTOR_DTYPES = ["float32", "float64", "int8", "int16", "int32", "int64"]
+
+
+def _ctor_recipes():
+    import pyunicorn.core as core
+    import pyunicorn.climate as climate
+    import pyunicorn.timeseries as ts
+    from pyunicorn.funcnet import CouplingAnalysis
+    from pyunicorn.eventseries import EventSeries
+
+    def grid(lat, lon, T=3):
+        return core.GeoGrid(np.arange(float(T)), lat, lon, silence_level=3)
+
+    def r_climate(a):
+        net = climate.ClimateNetwork(grid(a["lat"], a["lon"]), a["S"],
+                                     threshold=0.3, silence_level=3)
+        net.set_threshold(0.4)
+        net.set_non_local(True)
+        net.set_link_density(0.4)
+        net.similarity_measure()
+
+    def r_coupled(a):
+        n = len(a["lat"])
+        h = max(1, n // 2)
+        climate.CoupledClimateNetwork(
+            grid(a["lat"][:h].copy(), a["lon"][:h].copy()),
+            grid(a["lat"][h:].copy(), a["lon"][h:].copy()), a["S"],
+            threshold=0.3, silence_level=3) if n - h >= 1 else None
+
+    def r_network(a):
+        net = core.Network(adjacency=a["A"], node_weights=a["w"],
+                           silence_level=3)
+        net.set_link_attribute("la", a["W"])
+        net.nsi_degree()
+        net.path_lengths("la")
+        net.average_path_length("la")
+        net.nsi_local_clustering()
+
+    def r_geo(a):
+        net = core.GeoNetwork(grid(a["lat"], a["lon"]), adjacency=a["A"],
+                              silence_level=3)
+        net.area_weighted_connectivity()
+        net.average_link_distance()
+        net.grid.distance()
+
+    def r_res(a):
+        net = core.ResNetwork(a["R"], adjacency=a["A"], silence_level=3)
+        net.average_effective_resistance()
+        net.update_resistances(a["R"])
+
+    def r_rp(a):
+        rp = ts.RecurrencePlot(a["X"], threshold=1.0, normalize=False,
+                               silence_level=3)
+        rp.diagline_dist()
+        rp.set_fixed_recurrence_rate(0.3)
+        ts.RecurrencePlot(a["X"], recurrence_rate=0.3, normalize=True,
+                          silence_level=3)
+
+    def r_crp(a):
+        ts.CrossRecurrencePlot(a["X"], a["Y"], threshold=1.0,
+                               silence_level=3)
+        ts.JointRecurrencePlot(a["X"], a["Y"], threshold=(1.0, 1.0),
+                               silence_level=3)
+        ts.InterSystemRecurrenceNetwork(a["X"], a["Y"],
+                                        threshold=(1.0, 1.0, 1.0),
+                                        silence_level=3)
+
+    def r_rn(a):
+        rn = ts.RecurrenceNetwork(a["X"], threshold=1.0, normalize=False,
+                                  silence_level=3)
+        rn.degree()
+        rn.set_fixed_threshold(0.7)
+
+    def r_vg(a):
+        ts.VisibilityGraph(a["x"], timings=a["t"], silence_level=3)
+        ts.VisibilityGraph(a["x"], horizontal=True, silence_level=3)
+
+    def r_sur(a):
+        s = ts.Surrogates(a["D"], silence_level=3)
+        seed_library_rngs(1, 2)
+        s.white_noise_surrogates()
+        s.correlated_noise_surrogates()
+        s.AAFT_surrogates()
+        s.refined_AAFT_surrogates(n_iterations=2)
+        s.twin_surrogates(1, 1, 1.0, 2)
+
+    def r_coupling(a):
+        ca = CouplingAnalysis(a["D"].T, silence_level=3)
+        ca.cross_correlation(tau_max=1)
+        ca.mutual_information(tau_max=1, estimator="gauss")
+
+    def r_events(a):
+        es = EventSeries(a["E"], taumax=2.0)
+        es.event_series_analysis(method="ES")
+        EventSeries(a["D"].T, taumax=2.0, threshold_method="quantile",
+                    threshold_values=0.6, threshold_types="above")
+
+    def r_data(a):
+        g = grid(a["lat"], a["lon"], T=len(a["D"].T))
+        d = climate.ClimateData(observable=a["O"], grid=g, time_cycle=2,
+                                silence_level=3)
+        d.anomaly()
+        d.phase_mean()
+        climate.TsonisClimateNetwork(d, threshold=0.3, silence_level=3)
+        climate.ClimateData(observable=a["O"], grid=g, time_cycle=2,
+                            anomalies=True, silence_level=3).anomaly()
+
+    def r_grid(a):
+        gr = core.Grid(a["t"], np.vstack((a["lat"], a["lon"])),
+                       silence_level=3)
+        gr.distance()
+        gg = grid(a["lat"], a["lon"])
+        gg.angular_distance()
+        gg.node_number(a["lat"][0], a["lon"][0])
+
+    return {"ClimateNetwork": r_climate, "CoupledClimateNetwork": r_coupled,
+            "Network": r_network, "GeoNetwork": r_geo, "ResNetwork": r_res,
+            "RecurrencePlot": r_rp, "CrossJointInterSystem": r_crp,
+            "RecurrenceNetwork": r_rn, "VisibilityGraph": r_vg,
+            "Surrogates": r_sur, "CouplingAnalysis": r_coupling,
+            "EventSeries": r_events, "ClimateData": r_data, "Grid": r_grid}
+
+
+def _ctor_arrays(case):
+    n, T = case["n"], case["T"]
+    vals = (list(case["vals"]) * (n * n * T))
+    fd = np.dtype(case["fdtype"])
+    idt = np.dtype(case["idtype"])
+    order = case["order"]
+
+    def arr(shape, off, dt, scale=1.0):
+        k = int(np.prod(shape))
+        a = (np.array(vals[off:off + k], dtype=float) * scale).reshape(shape)
+        return np.array(a, dtype=dt, order=order)
+
+    A = (arr((n, n), 0, float) > 0.6).astype(int)
+    A = np.triu(A, 1)
+    A = A + A.T
+    for i in range(n - 1):          # connected chain
+        A[i, i + 1] = A[i + 1, i] = 1
+    S = arr((n, n), 3, float, 1.0 / 4)
+    S = (S + S.T) / 2
+    S -= S.mean()                   # negative entries present
+    np.fill_diagonal(S, 1)
+    R = np.abs(arr((n, n), 5, float)) + 0.5
+    R = (R + R.T) * A
+    lat = np.linspace(-60, 60, n)
+    lon = np.linspace(-150, 150, n)
+    out = {
+        "A": np.array(A, dtype=idt, order=order),
+        "S": np.array(S, dtype=fd, order=order),
+        "W": np.array(R, dtype=fd, order=order),
+        "R": np.array(R, dtype=fd, order=order),
+        "w": np.array(np.abs(arr((n,), 7, float)) + 0.25, dtype=fd),
+        "lat": np.array(lat, dtype=fd), "lon": np.array(lon, dtype=fd),
+        "X": arr((T, 2), 11, fd), "Y": arr((T, 2), 13, fd),
+        "x": arr((T,), 17, fd), "t": np.array(np.arange(T), dtype=fd),
+        "D": arr((n, T), 19, fd), "O": arr((T, n), 23, fd),
+        "E": np.array(arr((T, n), 29, float) > 0.9, dtype=idt, order=order),
+    }
+    return out
+
+
+def oracle_ctor_inputs(case, rec):
+    recipes = _ctor_recipes()
+    kind = case["kind"]
+    arrays = _ctor_arrays(case)
+    before = {k: snap(v) for k, v in arrays.items()}
+    rec.label("kind=" + kind)
+    rec.label("fdtype=%s idtype=%s order=%s" % (
+        case["fdtype"], case["idtype"], case["order"]))
+    try:
+        recipes[kind](arrays)
+    except Exception as e:  # pylint: disable=broad-except
+        # a constructor may refuse an input type; the inputs must still be
+        # untouched
+        rec.label("recipe_raised=" + type(e).__name__)
+    changed = [k for k in sorted(arrays) if before[k] != snap(arrays[k])]
+    rec.nontrivial(True)
+    for k in changed:
+        rec.fail("input/ctor:%s:%s_dtype_%s" % (kind, k, arrays[k].dtype),
+                 "caller array %r (dtype %s, %s order) modified" % (
+                     k, arrays[k].dtype, case["order"]))
+
+
+@st.composite
+def ctor_cases(draw):
+    return {"kind": draw(st.sampled_from(sorted(
+        ["ClimateNetwork", "CoupledClimateNetwork", "Network", "GeoNetwork",
+         "ResNetwork", "RecurrencePlot", "CrossJointInterSystem",
+         "RecurrenceNetwork", "VisibilityGraph", "Surrogates",
+         "CouplingAnalysis", "EventSeries", "ClimateData", "Grid"]))),
+            "n": draw(st.integers(3, 6)), "T": draw(st.integers(8, 14)),
+            "fdtype": draw(st.sampled_from(["float32", "float64"])),
+            "idtype": draw(st.sampled_from(["int8", "int16", "int32",
+                                            "int64", "bool"])),
+            "order": draw(st.sampled_from(["C", "F"])),
+            "vals": draw(st.lists(st.integers(-12, 12).map(
+                lambda k: k / 4.0), min_size=7, max_size=23))}
+
+
+def enum_ctor(tier):
+    kinds = ["ClimateNetwork", "CoupledClimateNetwork", "Network",
+             "GeoNetwork", "ResNetwork", "RecurrencePlot",
+             "CrossJointInterSystem", "RecurrenceNetwork", "VisibilityGraph",
+             "Surrogates", "CouplingAnalysis", "EventSeries", "ClimateData",
+             "Grid"]
+    vals = [0.5, -1.25, 2.0, 0.75, -0.5, 1.5, -2.25, 1.0, 0.25, -1.75, 3.0]
+    for kind in kinds:
+        for fd in ("float32", "float64"):
+            for idt in ("int8", "int16", "int64", "bool"):
+                for order in ("C", "F"):
+                    yield {"kind": kind, "n": 5, "T": 10, "fdtype": fd,
+                           "idtype": idt, "order": order, "vals": vals}
+
+
+SUBCHECKS.append(SubCheck("ctor_inputs_grid", oracle_ctor_inputs,
+                          enum=enum_ctor, quick=(4, None),
+                          thorough=(4, None)))
+SUBCHECKS.append(SubCheck("ctor_inputs_random", oracle_ctor_inputs,
+                          gen=ctor_cases, quick=(2, 100),
+                          thorough=(8, 1200)))
